@@ -821,6 +821,20 @@ def main():
                     reproduced = True   # harness compares against a model only; documented per harness
                     r["replay"]["note"] = "not natively replayable (stubbed environment); reported on the solver's verdict"
                 if not reproduced and h["kind"] != "stretch" and is_engine_artifact(r):
+                    # CBMC's object numbering depends on what else was compiled with the harness; a
+                    # borderline harness can be decided when it is compiled and run on its own
+                    try:
+                        iso = os.path.join(d, "iso_" + r["name"])
+                        t2, _ = kani_codegen(repo, prop, os.path.join(iso, "kout"), [h["full"]])
+                        os.makedirs(os.path.join(iso, "goto"), exist_ok=True)
+                        r2 = verify_one(h, t2, os.path.join(iso, "goto"))
+                    except SystemExit:
+                        r2 = {"verdict": "ERROR"}
+                    if r2.get("verdict") == "SUCCESS":
+                        r2["detail"] = "decided on an isolated re-run (the batch run ended in an engine artifact)"
+                        r.clear()
+                        r.update(r2)
+                        continue
                     # A failure reported INSIDE the standard library's allocation / pointer / formatting
                     # internals that does not replay natively is CBMC's imprecision on allocations whose
                     # size became symbolic (DESIGN.md 2.5), not a statement about the code under test and
